@@ -19,12 +19,59 @@ import (
 )
 
 type protoCase struct {
-	Call string // read write transform create edit open mutex openfile
-	Arg  string // hex data / FAIL / decimal flags / -
-	File string // hex contents or "absent"
+	Call   string // read write transform create edit open mutex openfile
+	Arg    string // hex data / FAIL / decimal flags / -
+	File   string // hex contents or "absent"
+	Helper string // what the helper is given instead of Arg (alias:... transform functions)
 }
 
-func (c protoCase) key() string { return c.Call + " " + short(c.Arg) + " " + short(c.File) }
+func (c protoCase) key() string {
+	k := c.Call + " " + short(c.Arg) + " " + short(c.File)
+	if c.Helper != "" {
+		k += " " + c.Helper
+	}
+	return k
+}
+
+func (c protoCase) helperArg() string {
+	if c.Helper != "" {
+		return c.Helper
+	}
+	return c.Arg
+}
+
+// aliasValue: the VALUE an aliasing transform function (helper.go: aliasTransform) returns.
+// The model's t is a function on values; that the Go result shares memory with the argument
+// is visible only to the implementation.
+func aliasValue(spec, oldHex string) string {
+	old := common.UnHex(oldHex)
+	f := strings.Split(spec, ":")
+	switch f[1] {
+	case "same":
+		return common.Hex(old)
+	case "prefix":
+		n, _ := strconv.Atoi(f[2])
+		if n > len(old) {
+			n = len(old)
+		}
+		return common.Hex(old[:n])
+	case "append", "appendfresh":
+		return common.Hex(append(append([]byte{}, old...), common.UnHex(f[2])...))
+	case "poke":
+		i, _ := strconv.Atoi(f[2])
+		b := append([]byte{}, old...)
+		if x := common.UnHex(f[3]); i < len(b) && len(x) == 1 {
+			b[i] = x[0]
+		}
+		return common.Hex(b)
+	}
+	return oldHex
+}
+
+// aliasSpecs: result is the input, a prefix, an in-place append, a fresh append, the input
+// modified in place.
+var aliasSpecs = []string{"alias:same", "alias:prefix:3", "alias:prefix:1", "alias:append:7879", "alias:append:30313233343536373839",
+	"alias:appendfresh:7879", "alias:poke:1:5a", "alias:poke:0:51"}
 
 var flockNum = map[string]string{"LOCK_SH": "1", "LOCK_EX": "2", "LOCK_UN": "8"}
 
@@ -219,18 +266,23 @@ func protoCases(rng *common.RNG, tier, prop string) []protoCase {
 	var cs []protoCase
 	files := []string{"absent", "-", "616263646566"}
 	for _, f := range files {
-		cs = append(cs, protoCase{"read", "-", f})
+		cs = append(cs, protoCase{"read", "-", f, ""})
 		for _, d := range []string{"-", "78797a", "3031323334353637383930"} {
-			cs = append(cs, protoCase{"write", d, f})
+			cs = append(cs, protoCase{"write", d, f, ""})
 		}
 		for _, n := range []string{"FAIL", "-", "7a7a", "414243444546", "4142434445464748494a"} {
-			cs = append(cs, protoCase{"transform", n, f})
+			cs = append(cs, protoCase{"transform", n, f, ""})
+		}
+		if f != "absent" && f != "-" {
+			for _, sp := range aliasSpecs {
+				cs = append(cs, protoCase{"transform", aliasValue(sp, f), f, sp})
+			}
 		}
 		if prop == "C07" {
 			continue
 		}
 		for _, call := range []string{"create", "edit", "open", "mutex"} {
-			cs = append(cs, protoCase{call, "-", f})
+			cs = append(cs, protoCase{call, "-", f, ""})
 		}
 	}
 	if prop == "C07" {
@@ -239,15 +291,15 @@ func protoCases(rng *common.RNG, tier, prop string) []protoCase {
 	// non-regular targets (O_RDWR so that the FIFO open does not block): the Truncate of the
 	// O_TRUNC calls fails there and is ignored; the File must still be locked when returned
 	for _, f := range []string{"fifo", "chardev"} {
-		cs = append(cs, protoCase{"create", "-", f}, protoCase{"edit", "-", f}, protoCase{"mutex", "-", f},
-			protoCase{"openfile", strconv.Itoa(os.O_RDWR | os.O_TRUNC), f},
-			protoCase{"openfile", strconv.Itoa(os.O_RDWR | os.O_CREATE | os.O_TRUNC | os.O_APPEND), f},
-			protoCase{"openfile", strconv.Itoa(os.O_RDWR), f})
+		cs = append(cs, protoCase{"create", "-", f, ""}, protoCase{"edit", "-", f, ""}, protoCase{"mutex", "-", f, ""},
+			protoCase{"openfile", strconv.Itoa(os.O_RDWR | os.O_TRUNC), f, ""},
+			protoCase{"openfile", strconv.Itoa(os.O_RDWR | os.O_CREATE | os.O_TRUNC | os.O_APPEND), f, ""},
+			protoCase{"openfile", strconv.Itoa(os.O_RDWR), f, ""})
 	}
 	// an unprivileged caller: a lock file / data file it may only read, or only write
 	for _, f := range []string{"ro:616263", "wo:616263"} {
-		cs = append(cs, protoCase{"mutex", "-", f}, protoCase{"edit", "-", f}, protoCase{"open", "-", f},
-			protoCase{"read", "-", f}, protoCase{"write", "7879", f}, protoCase{"transform", "7a7a", f})
+		cs = append(cs, protoCase{"mutex", "-", f, ""}, protoCase{"edit", "-", f, ""}, protoCase{"open", "-", f, ""},
+			protoCase{"read", "-", f, ""}, protoCase{"write", "7879", f, ""}, protoCase{"transform", "7a7a", f, ""})
 	}
 	for _, acc := range []int{0, 1, 2, 3} {
 		for _, cr := range []int{0, os.O_CREATE} {
@@ -264,7 +316,7 @@ func protoCases(rng *common.RNG, tier, prop string) []protoCase {
 								continue
 							}
 							for _, f := range []string{"absent", "616263646566"} {
-								cs = append(cs, protoCase{"openfile", strconv.Itoa(fl), f})
+								cs = append(cs, protoCase{"openfile", strconv.Itoa(fl), f, ""})
 							}
 						}
 					}
@@ -326,7 +378,7 @@ func runProtoCase(self, work string, m *lfModel, c protoCase, inject string) (im
 	if (c.File == "fifo" || c.File == "chardev") && getFile(path) != c.File {
 		return "", "", nil, "", fmt.Errorf("cannot create a %s here (skipped)", c.File)
 	}
-	result, evs, raw, err := straceCall(self, work, c.Call, path, c.Arg, inject, []string{"GOMAXPROCS=1"})
+	result, evs, raw, err := straceCall(self, work, c.Call, path, c.helperArg(), inject, []string{"GOMAXPROCS=1"})
 	if err != nil {
 		return "", "", nil, raw, err
 	}
